@@ -25,9 +25,11 @@ class Case:
         self.stmts = {}                 # file -> [(start, end, kind, text)] (generated programs)
         self.features = []
 
-    def op(self, schedule=None, trace=False, force_budget=2_000_000):
+    def op(self, schedule=None, trace=False, force_budget=2_000_000, listing=False):
         op = {"kind": "lib", "sources": list(self.sources), "files": dict(self.files),
               "charset": self.charset, "cwd": SIMROOT + "/w", "force_budget": force_budget}
+        if listing:
+            op["listing"] = True
         if schedule is not None:
             op["schedule"] = schedule
         if trace:
@@ -72,8 +74,8 @@ def describe(o):
     return o[0]
 
 
-def run_case(ns, case, schedule=None, trace=False, timeout=120, force_budget=2_000_000):
-    return procs.fork_call(drivers.run_lib, ns, case.op(schedule, trace, force_budget), timeout=timeout)
+def run_case(ns, case, schedule=None, trace=False, timeout=120, force_budget=2_000_000, listing=False):
+    return procs.fork_call(drivers.run_lib, ns, case.op(schedule, trace, force_budget, listing), timeout=timeout)
 
 
 # --------------------------------------------------------------------------------------------
